@@ -56,6 +56,12 @@ def opstr(case):
 
 
 # ------------------------------------------------------------------ rendering
+# how the value written at history position j is spelled ("v<j>": every read identifies the write it saw;
+# C11 also runs the histories with one constant value for every write: then a write that repeats the value
+# the global currently has is exercised, and reads still tell defined from undefined)
+VALFN = [lambda j: 'v%d' % j]
+
+
 class Renderer:
     """history -> murex source.  All names carry the case id: interpreter state (functions,
     globals, config options) is process-wide and shared by the programs of a shard."""
@@ -79,7 +85,7 @@ class Renderer:
     # -- one operation
     def stmt(self, o, i):
         k, n = o['k'], o['n']
-        v = 'v%d' % i
+        v = VALFN[0](i)
         if k in ('set', 'gset'):
             form = self.rng.choice(SET_FORMS)
             self.forms.append(form)
@@ -174,9 +180,9 @@ def expected(case, valtext=None):
     for i, ob in enumerate(case['obs'], 1):
         if isinstance(ob['rd'], dict):
             for n, v in ob['rd'].items():
-                exp[(i, 'r', n)] = 'U' if v == 0 else 'v%d' % v
+                exp[(i, 'r', n)] = 'U' if v == 0 else VALFN[0](v)
             for n, v in ob['gl'].items():
-                exp[(i, 'g', n)] = 'U' if v == 0 else 'v%d' % v
+                exp[(i, 'g', n)] = 'U' if v == 0 else VALFN[0](v)
         if isinstance(ob['cf'], dict):
             for o, v in ob['cf'].items():
                 exp[(i, 'c', o)] = valtext[o](v)
